@@ -44,7 +44,7 @@ WALL_LIMIT = {('C02', 'quick'): 240, ('C02', 'thorough'): 240}
 PROBES = {
     'C01': ['page_with_over_1000_links', 'linked_and_embedded', 'cycle', 'diamond', 'self_link', 'duplicate_link', 'alt_spelling', 'redirect', 'requisites', 'css_url', 'concurrency>1',
             'depth_limited', 'no_parent', 'regex', 'multi_start', 'redirect_target_also_linked', 'depth_race_possible', 'keepalive_off'],
-    'C02': ['robots_fetch_failed', 'offered_foreign_host', 'offered_upward_path', 'offered_deep', 'offered_regex_rejected', 'offered_excluded_dir',
+    'C02': ['robots_fetch_failed', 'robots_redirected_out', 'robots_redirect_followed', 'offered_foreign_host', 'offered_upward_path', 'offered_deep', 'offered_regex_rejected', 'offered_excluded_dir',
             'offered_rejected_suffix', 'cross_host_redirect', 'waiver_used', 'retry', 'requests_attributed', 'span_hosts_allow',
             'domains', 'hostnames', 'https_only', 'tries'],
     'C20': ['robots_disallow', 'robots_allow_all', 'robots_404', 'robots_5xx', 'robots_redirect', 'robots_big', 'robots_netfault', 'tag_options', 'nofollow_page',
@@ -691,6 +691,18 @@ def gen_c02(tape, tier):
         for o in site.origins:
             if tape.chance(1, 2, 'site.flaky_robots.o'):
                 site.flaky_robots.append((o, tape.choice((1, 2, 5, 30), 'site.flaky_robots.n'), tape.choice(('503', 'reset'), 'site.flaky_robots.kind')))
+    # robots.txt answered with a redirect that leaves the scope (another host, or a path a rule rejects)
+    site.robots_redirect = None
+    if opts['robots'] and not site.flaky_robots and tape.chance(1, 4, 'site.robots_redirect'):
+        others = [o for o in site.origins if o.key() != main.key()]
+        if others and tape.chance(1, 2, 'site.robots_redirect.foreign'):
+            o2 = others[tape.draw(len(others), 'site.robots_redirect.o')]
+            tgt = site.add(o2, '/robots-elsewhere.txt', 'robots')
+        else:
+            tgt = site.add(main, tape.choice(('/d1/d2/robots-alt.txt', '/other/robots-alt.txt', '/robots-alt.txt'), 'site.robots_redirect.path'), 'robots')
+        tgt.body = b'User-agent: *\nDisallow:\n'
+        tgt.content_type = 'text/plain'
+        site.robots_redirect = (main, tgt, tape.choice((301, 302, 307), 'site.robots_redirect.code'))
     site.finalize()
     return site, starts, opts, flaky
 
@@ -726,6 +738,12 @@ def judge_c02(r, site, starts, opts, out, rows, own_hosts=None, phase=''):
         first = canon(e['url']) == canon(rec['url'])
         if e['target'] == '/robots.txt' and opts.get('robots'):
             continue        # judged below (robots.txt of an origin being visited)
+        res_here = site.lookup(e.get('origin'), e.get('target')) if e.get('origin') else None
+        if res_here is not None and res_here.kind == 'robots' and opts.get('robots'):
+            # where a redirected /robots.txt led to: still the retrieval of the control file (RFC 9309 2.3.1.2 asks
+            # crawlers to follow such redirects, also to another authority) - part of the documented exception
+            r.probes['robots_redirect_followed'] += 1
+            continue
         if not first and opts.get('strong_redirects', True) and failed == ['span_hosts']:
             r.probes['waiver_used'] += 1
             continue
@@ -843,6 +861,14 @@ def run(tape, prop, tier):
                     else:
                         server.send(conn, 404, 'Not Found', [('Content-Type', 'text/plain')], b'no robots here')
                 server.behaviour[(o.key(), '/robots.txt')] = rbeh
+            if getattr(site, 'robots_redirect', None):
+                o, tgt, code = site.robots_redirect
+
+                def rred(conn, entry, rs, tgt=tgt, code=code):
+                    entry['robots'] = True
+                    r.probes['robots_redirected_out'] += 1
+                    server.send(conn, code, 'Moved', [('Location', tgt.url), ('Content-Type', 'text/plain')], b'moved')
+                server.behaviour[(o.key(), '/robots.txt')] = rred
             for res, n in flaky:
                 state = {'left': n}
 
